@@ -27,6 +27,7 @@ def run(ctx, rep):
     fixtures.run_controls(rep, ['E2'], lambda: ctx.reload())
     rep.rule('E8b', e8b_matrix.__doc__.strip().split('\n')[0])
     e8b_matrix.check_split_combine(facts, rep)
+    e8b_matrix.check_stack_vecs(facts, rep)
     e8b_matrix.check_trans_order(facts, rep)
     e8b_matrix.check_index_maps(facts, rep)
     e8b_matrix.check_extend_cols(facts, rep)
